@@ -89,7 +89,7 @@ pub fn config(r: &mut Rd, max_edge: u16) -> Config {
     }
     if let Transport::Spi { .. } = transport {
         let n = (model.bits() as u16 + 7) / 8;
-        transport = Transport::Spi { buf: n + (r.u8() as u16 % 70) };
+        transport = Transport::Spi { buf: (n + (r.u8() as u16 % 70)) as u32 };
     }
     let (fw, fh) = model.fb();
     let cap = if transport.pin_level() { max_edge.min(24) } else { max_edge };
